@@ -582,7 +582,7 @@ for (m, tier, nm, nw) in [('auto_waste', 'quick', 2, 1), ('auto_waste', 'thoroug
 import stepsort as _step
 MIR += [q for q in _step.MIR if q.name in ('step_sort_d1_t1_s1', 'step_sort_d1_t2_s1')]
 EXPLANATION += " A whole Sort::predict_with_scene call is also executed from MIR on a symbolic tracker state (props/stepsort.py): real TrackStore code over the shard-map store model with the real worker loop, real builders / Track::add_observation / merge / SortMetric / SortAttributes / SortVoting code, kuhn_munkres by contract, geometry numbers and Kalman prediction uninterpreted - one record per detection in submission order echoing box, custom id, scene and the scene's new epoch; continuations only inside the scene, through the gate, for unexpired tracks, forming a maximum-weight one-to-one assignment; new ids = counter + k; lengths = detections attached; tracks that were not continued unchanged; only this scene's epoch advances. One step from an arbitrary valid state is the inductive step of the history statements."
-ASSUMPTIONS += ['predict step: <= 2 detections, <= 2 stored tracks (scene, last epoch, length, ids, custom ids symbolic; invariant: issued ids <= counter, last epoch <= scene epoch), 1 shard (thorough 2), IoU mode with threshold from {.25,.5}, IoU values from {.125,.25,.5,.75} or no overlap, confidences {.25,1}, min confidence .5, history length 2, auto-waste counter != 0 (no collection in this call); candidate ids random 64-bit values assumed distinct from all ids in use and non-zero; a FRESH Kalman filter initiated and updated with the same box returns that box (innovation exactly 0); workers run when the caller blocks; HashMap iteration in insertion order']
+ASSUMPTIONS += ['predict step: <= 2 detections, <= 2 stored tracks (scene, last epoch, length, ids, custom ids symbolic; invariant: issued ids <= counter, last epoch <= scene epoch), 1 shard (thorough 2), IoU mode with threshold from {.125,.25,.5}, IoU values from {.125,.25,.5,.75} or no overlap, confidences {.25,1}, min confidence .5, history length 2, auto-waste counter != 0 (no collection in this call); candidate ids random 64-bit values assumed distinct from all ids in use and non-zero; a FRESH Kalman filter initiated and updated with the same box returns that box (innovation exactly 0); workers run when the caller blocks; HashMap iteration in insertion order']
 
 
 # one whole VisualSort predict call from an arbitrary valid tracker state, see props/stepvisual.py
